@@ -162,6 +162,10 @@ func (g *gen) editLine(kind string) string {
 	if g.w.MaxSize > 0 && r.IntN(10) == 0 {
 		cm, big = "BIG600", true
 	}
+	if kind == "set" && r.IntN(2) == 0 {
+		// the in-process read-modify-write edit: QueryOne(QIDs(id)), change the returned object, Set it
+		kind = "setq"
+	}
 	return silx.SetLine(kind, 0, g.now, id, ss, silx.I64(end), cm, sets, big)
 }
 
